@@ -172,6 +172,8 @@ def diff_replies(req_path, real_path, model_path, limit=20):
     with open(req_path) as fq, open(real_path) as fr, open(model_path) as fm:
         for i, (q, r, m) in enumerate(zip_strict(fq, fr, fm), 1):
             n += 1
+            if q.startswith("@"):
+                continue      # oracle-only request (not executed by the model)
             if r != m:
                 if len(mism) < limit:
                     mism.append({"line": i, "request": q.rstrip("\n"), "real": r.rstrip("\n"),
